@@ -107,6 +107,20 @@ Proof.
 Qed.
 Print Assumptions c17_search_is_successor.
 
+(* Several calls between two lookups (the observable of every sentence above is GetNodeBy
+   "before and after"): over any run of AddNode/RemoveNode calls a key keeps its member, or
+   goes to a member added during the run, or its member was removed during the run.  For a
+   single call this is c17_add_moves_only_to_new / c17_remove_moves_only_own. *)
+Theorem c17_composite_moves : forall hash ops more key old new,
+  get_node_by hash key (run hash ops) = Some old ->
+  get_node_by hash key (run hash (ops ++ more)) = Some new ->
+  new = old \/ In (Add new) more \/ In (Remove old) more.
+Proof.
+  intros hash ops more key old new H1. unfold run. rewrite fold_left_app.
+  apply composite_moves; [apply inv_run | exact H1].
+Qed.
+Print Assumptions c17_composite_moves.
+
 (* Side remark on "non-empty ring": if the replica points of the names that are ever added
    do not collide, every member owns all of its ReplicaCount points, so a ring with at least
    one member has points (with collisions a late-comer may own fewer points — in the extreme,
@@ -141,3 +155,23 @@ Example c17_example_ring :
   get_node_by fnv1a [107; 101; 121; 49] s = Some n2186 /\
   get_node_by fnv1a [107; 101; 121; 49] (step fnv1a s (Remove n151)) = Some n2186.
 Proof. vm_compute. repeat split; try reflexivity. discriminate. Qed.
+
+(* The tie to the source text.  tools/gofunc regenerates Generated/Consistent.v from
+   consistent.go on every run (Go loops as fuelled iteration, slice reads with bounds checks,
+   int arithmetic wrapped to 64 bits: Lib/GoSem.v); C17/Source.v proves that the translated
+   search and hashKey methods of Consistent compute exactly the model's `search` and `fnv1a` whenever
+   the slice is shorter than 2^62 elements and the fuel exceeds its length. *)
+From FV Require Import Lib.GoSem Generated.Consistent C17.Source.
+
+Theorem c17_src_search : forall sh h, Z.of_nat (length sh) < 2 ^ 62 ->
+  forall fuel, (length sh < fuel)%nat ->
+  go_Consistent_search fuel sh h = Ok (search sh h).
+Proof. exact src_search. Qed.
+Print Assumptions c17_src_search.
+
+Theorem c17_src_hashKey : forall key, is_bytes key -> Z.of_nat (length key) < 2 ^ 62 ->
+  forall fuel, (length key < fuel)%nat ->
+  go_Consistent_hashKey fuel key = Ok (fnv1a key).
+Proof. exact src_hashKey. Qed.
+Print Assumptions c17_src_hashKey.
+
